@@ -721,10 +721,8 @@ func earlyFactoryTable(c *core.Ctx, l *lifecycleRoles, maxLen int) (rs rows, run
 	rs = rows{}
 	// the literal registered as early factory
 	var lit *ssa.Function
-	for _, ci := range core.Calls(l.exposer) {
-		if core.IsInvoke(ci.Common(), ro.SCRAddFactory) && len(ci.Common().Args) == 2 {
-			lit = core.ClosureOf(ci.Common().Args[1])
-		}
+	for _, ci := range addFactorySites(c, l) {
+		lit = core.ClosureOf(ci.Common().Args[1])
 	}
 	if lit == nil {
 		return rs, 0, "the early factory handed to AddSingletonFactory is not a function literal"
@@ -768,7 +766,7 @@ func earlyFactoryTable(c *core.Ctx, l *lifecycleRoles, maxLen int) (rs rows, run
 					return absint.Bool(hasIA) // registration sets the flag when such a processor exists (checked structurally)
 				}
 				if sl, ok := typ.Underlying().(*types.Slice); ok && types.IsInterface(sl.Elem()) {
-					return procs
+					return dispatchList(c, fname, procs)
 				}
 				return nil
 			}
